@@ -164,6 +164,43 @@ def snapshot(S):
     return out
 
 
+OBSERVERS = {
+    "Box": ("origin", "size", "ranges", "center_point", "floor_point", "mid_x", "mid_y", "mid_z", "v", "volume", "surface_area"),
+    "Plane": ("reference_point", "normal", "equation", "canonical_point"),
+    "Polyline": ("v", "e", "is_closed", "num_v", "num_e", "segment_lengths", "total_length"),
+    "Line": ("reference_point", "along", "reference_points"),
+}
+
+
+def observe(S):
+    """the object's state as seen through its public read-only properties (so that a cached value which a later call
+    corrupts is noticed, not only the arrays stored in __dict__)"""
+    out = []
+
+    def visit(o, depth):
+        if depth > 2:
+            return
+        if isinstance(o, (list, tuple)):
+            for x in o:
+                visit(x, depth + 1)
+            return
+        names = OBSERVERS.get(type(o).__name__)
+        if names and type(o).__module__.startswith("polliwog"):
+            for nm in names:
+                try:
+                    val = getattr(o, nm)
+                except Exception as e:  # noqa: BLE001
+                    val = "raised " + type(e).__name__
+                if isinstance(val, np.ndarray):
+                    out.append((nm, val.shape, val.tobytes()))
+                elif isinstance(val, tuple) and all(isinstance(x, np.ndarray) for x in val):
+                    out.append((nm,) + tuple(x.tobytes() for x in val))
+                else:
+                    out.append((nm, repr(val)))
+    visit(S, 0)
+    return out
+
+
 def snapshot_unchanged(before, after):
     """every array present before is still there with the same bytes (builders may append new ones)"""
     if len(after) < len(before):
@@ -330,6 +367,7 @@ def run_once(entry, selfkind, shapes, seed, obs, label):
         return None
     before = {k: (v.tobytes(), v.shape, v.dtype.str) for k, v in A.items() if isinstance(v, np.ndarray)}
     sbefore = snapshot(S)
+    obefore = observe(S)
     try:
         res = entry.call(A, S)
         tag = "A"
@@ -342,6 +380,8 @@ def run_once(entry, selfkind, shapes, seed, obs, label):
                 obs["purity"].append("%s modified its argument `%s` (%s)" % (label, k, tag))
         if not snapshot_unchanged(sbefore, snapshot(S)):
             obs["purity"].append("%s modified the object it was called on (%s)" % (label, tag))
+        elif observe(S) != obefore:
+            obs["purity"].append("%s changed what the object's read-only properties return (%s)" % (label, tag))
     if tag == "A":
         # write-protected, fresh self, same values: must succeed again with the same result
         S2 = make_self(selfkind)
